@@ -204,8 +204,8 @@ def tasks_for(tier):
     quick = tier == 'quick'
     t = []
     K = 10 if quick else 20
-    for qw, dw in ([(8, 64), (12, 64), (32, 64), (33, 64), (64, 64), (64, 128)] if quick else
-                   [(8, 64), (9, 64), (12, 64), (16, 64), (20, 64), (32, 64), (33, 64), (63, 64), (64, 64), (64, 128), (8, 128), (100, 128), (128, 128), (1, 8), (7, 8)]):
+    for qw, dw in ([(8, 64), (12, 64), (32, 64), (33, 64), (64, 64), (64, 128), (72, 128), (100, 128)] if quick else
+                   [(8, 64), (9, 64), (12, 64), (16, 64), (20, 64), (32, 64), (33, 64), (63, 64), (64, 64), (64, 128), (8, 128), (72, 128), (100, 128), (128, 128), (96, 512), (1, 8), (7, 8)]):
         c = axi2reg_cfg(qw, dw)
         c['bmc'] = K
         t.append(('Axi2Reg q%d stream%d reference machine' % (qw, dw), seq_task, c))
@@ -227,7 +227,7 @@ def main(argv=None):
                      'Reg2Axi: ap_done only when no beat is pending or being loaded; inductive invariant tvalid => active',
                      'a load pulse counts only while the adapter is active; a transfer is VALID and READY in the same cycle',
                      'the *-any clause set assumes nothing (every register state, every input); there a beat counts as accepted only while the adapter is active: a beat left pending by a done pulse stays offered while inactive (Test_Reg2Axi::test_basic_transmission relies on it) and what the peer does with it in that interval is outside the claim'],
-        bounds={'widths': 'q/reg 8,12,32,33,64 on 64/128-bit streams (quick) plus 1,7,9,16,20,63,100,128 (thorough): multiples of 8 and widths with a partial top byte', 'history': '1-step induction from any invariant state; BMC 10/20 cycles from power-up'},
+        bounds={'widths': 'q/reg 8,12,32,33,64 on 64/128-bit streams and 72,100 on 128-bit streams (quick) plus 1,7,9,16,20,63,100,128 (thorough): multiples of 8 and widths with a partial top byte', 'history': '1-step induction from any invariant state; BMC 10/20 cycles from power-up'},
         trusted_base=['z3', 'symx operator semantics', 'reference machines / clauses in checks/c16.py'])
 
 
